@@ -200,3 +200,40 @@ PROPS["C08"]["units"].append(dict(harness="keys", mode="groupdup", quick=dict(ca
 PROPS["C08"]["rule"] += (" Second unit: key-specification sets (collision vocabulary of C05) spread over 1..3 member handlers in several "
                          "definition orders; addArgument must be refused iff the short or long key is already taken in ANY member.")
 PROPS["C08"]["require_classes"]["all"] += ["cross_member_duplicate", "group_orders_evaluated"]
+
+HARNESSES["fuzz_argv"] = dict(cfg="fuzz", sources=["fuzz/fuzz_argv.cpp"], lib_only=ARGH_LIB, rapidcheck=False, kind="fuzz",
+                              kind_text="libFuzzer target (clang, ASan+UBSan): structural decoding of the input into handler flags, "
+                                        "argument-set menu, argv[0], words, file and environment bodies")
+PROPS["C04"] = dict(
+    units=[
+        dict(harness="argh", mode="mutate", quick=dict(cases=20000), thorough=dict(cases=250000, shards=8)),
+        dict(harness="fuzz_argv", mode="raw", kind="fuzz", dict="fuzz/argv.dict",
+             quick=dict(cases=180000, shards=4), thorough=dict(cases=4000000, shards=16)),
+    ],
+    rule="(1) libFuzzer target: the input is decoded into 18 handler-flag bits (help, verbose, no-abbreviation, usage display, "
+         "end-values, program-argument file, default and named environment variable, argument-file argument), one of 6 argument "
+         "sets (scalars with checks/formats; containers incl. array/tuple/bitset/map with options; level counter, value and pair "
+         "destinations, callables; constraints, mandatory and 'command' value mode; positional, brackets and a sub-group handler; "
+         "hidden/deprecated arguments with nested long keys), plain handler or a two-member group, argv[0] (empty, path, up to 600 "
+         "bytes, random bytes), up to 24 NUL-free words of up to 40 bytes, file and environment bodies; fresh corpus, dictionary "
+         "of keys and control words. (2) rapidcheck: valid lines of rule-rich configurations put through 1..4 grammar-aware "
+         "mutations (delete/duplicate/swap/truncate words, splice '=', '-', '--', brackets, '!', random bytes, 100..400 byte "
+         "words), program names of every shape, mutated file/env sources, plain handler or group. Oracle: no ASan/UBSan report, "
+         "only std::exception escapes, evaluation returns (alarm / libFuzzer -timeout). Non-trivial = the evaluation gets at "
+         "least one word besides argv[0]; distinct = corpus units (inputs that reached new coverage) for (1), case hash for (2).",
+    require_classes=dict(all=["outcome.exception", "outcome.return", "mutate.file_source", "mutate.env_source", "mutate.groups",
+                              "fuzz.with_words", "fuzz.returned", "fuzz.threw", "fuzz.file_source", "fuzz.env_source",
+                              "fuzz.groups", "fuzz.arg_file"] + ["fuzz.menu_%d" % i for i in range(6)]),
+    assumptions=["argc >= 1; words are NUL-free (C strings)",
+                 "destinations whose position argument directly sizes an allocation (vector<bool>, DynamicBitset) are left out of the fuzz menu "
+                 "(a huge position is a legitimate bad_alloc that ASan turns into an abort); they are covered with bounded positions in C06/C12",
+                 "memory leaks are not part of the statement (detect_leaks=0)",
+                 "libFuzzer pins a campaign only approximately (-seed, -runs, fresh corpus); the saved artefact is the reproducible unit"],
+    wall_cap=dict(quick=600, thorough=3600),
+)
+MANIFEST_TEXT["C04"] = dict(
+    text="Coverage-guided fuzzing (libFuzzer) of a structurally decoded argument vector + sources, and rapidcheck-generated grammar-aware "
+         "mutations of valid lines, both under ASan+UBSan with the oracle 'only std::exception may escape, evaluation returns'. " + EXPL,
+    design_ref="DESIGN.md section 4/C04",
+    note="Trusts ASan/UBSan as monitors (vptr check off, see DESIGN 2.2) and libFuzzer's timeout for termination; flag/source combinations are sampled, the per-class counters in the evidence show which were reached.",
+    technique="coverage-guided fuzzing (libFuzzer, structure-aware decoding) + property-based mutation testing (rapidcheck), sanitizers as monitors")
